@@ -1050,7 +1050,8 @@ class TemplateModel(object):
         ns = len(spike_ids)
 
         if tf.rows is not None:
-            spike_ids = np.intersect1d(spike_ids, tf.rows)
+            spike_ids = np.asarray(spike_ids)
+            spike_ids = spike_ids[np.isin(spike_ids, tf.rows)]
             # Relative indices of the spikes in the self.features_spike_ids
             # array, necessary to load features from all_features which only
             # contains the subset of the spikes.
